@@ -329,6 +329,65 @@ class Check:
                        f'model and implementation differ (in-kernel): {goals[gi][1][:300]} vs {goals[gi][2]!r}')
         return False
 
+    def step_cases(self, name, preamble, cases, shard=400, timeout=900):
+        """Engine-B correspondence inside Coq.  cases: list of (label, coq_bool_expr): the
+        expression compares the executable model's output with what the implementation was
+        observed to do.  Every case is evaluated by vm_compute in sharded scratch files
+        compiled in parallel.  Returns the labels whose expression evaluated to false (or could
+        not be evaluated)."""
+        import concurrent.futures
+        if not cases:
+            return []
+        shards = [cases[i:i + shard] for i in range(0, len(cases), shard)]
+        paths = []
+        for k, sh in enumerate(shards):
+            path = os.path.join(BUILD, f'cases_{self.pid}_{name}_{k}.v')
+            with open(path, 'w') as f:
+                f.write(preamble + '\n')
+                f.write('Definition verif_results : list bool := [\n  ' + ';\n  '.join(f'({e})' for _, e in sh) + '].\n')
+                f.write('Eval vm_compute in (List.map (fun b : bool => if b then 1 else 0) verif_results).\n')
+            paths.append(path)
+        self.obligations += len(cases)
+        bad = []
+
+        def run(path):
+            p = subprocess.run(['timeout', str(timeout), 'coqc'] + COQ_FLAGS + [path], cwd=COQ,
+                               stdout=subprocess.PIPE, stderr=subprocess.STDOUT, text=True)
+            return p.returncode, p.stdout
+        with Lock():
+            with concurrent.futures.ThreadPoolExecutor(max_workers=8) as ex:
+                outs = list(ex.map(run, paths))
+        for sh, (rc, out) in zip(shards, outs):
+            m = re.search(r'=\s*\[([^\]]*)\]', out, re.S)
+            if rc != 0 or not m:
+                err = first_error(out)
+                self.broke('correspondence-broken', f'cases:{name}', f'case file did not evaluate: {err["error"]}')
+                bad += [lbl for lbl, _ in sh]
+                continue
+            bits = re.findall(r'\d+', m.group(1))
+            if len(bits) != len(sh):
+                self.broke('correspondence-broken', f'cases:{name}', f'expected {len(sh)} results, parsed {len(bits)}')
+                bad += [lbl for lbl, _ in sh]
+                continue
+            for (lbl, _), b in zip(sh, bits):
+                if b == '1':
+                    self.discharged += 1
+                else:
+                    bad.append(lbl)
+        return bad
+
+    def step_eval(self, name, preamble, exprs, timeout=300):
+        """Ask Coq for the value of model expressions (used to put the model's answer into a
+        replay file).  Returns the raw printed values, one string per expression."""
+        path = os.path.join(BUILD, f'eval_{self.pid}_{name}.v')
+        with open(path, 'w') as f:
+            f.write(preamble + '\n')
+            for i, e in enumerate(exprs):
+                f.write(f'Definition verif_e{i} := ({e}).\nEval vm_compute in verif_e{i}.\n')
+        ok, out = coqc_file(path, timeout=timeout)
+        vals = re.findall(r'=\s*(.*?)\n\s*:\s', out, re.S)
+        return [' '.join(v.split()) for v in vals]
+
     # ---- decision, replay, evidence
     def finish(self, trusted_extra=(), assumptions=(), level='proof', checker_cmd=None):
         known = load_known_findings(self.pid)
